@@ -95,7 +95,7 @@ func VerifV2Buffers(dc *DualContouringV2, s sdf.SDF3) *VerifV2Mesh {
 	idx := make([]v3.Vec, len(vertexBuffer))
 	for _, vi := range info {
 		out.VertexCells[vi.bufIndex] = vi.cellIndex
-		out.Inside[vi.bufIndex] = int(dc.computeCornersInside(s2, vi.cellStart, vi.cellSize))
+		out.Inside[vi.bufIndex] = int(dc.computeCornersInside(s2, vi.cellIndex, vi.cellSize))
 		idx[vi.bufIndex] = v3.Vec{X: float64(vi.cellIndex.X), Y: float64(vi.cellIndex.Y), Z: float64(vi.cellIndex.Z)}
 	}
 	ch := make(chan []*sdf.Triangle3, 3*len(info)+1)
